@@ -308,8 +308,12 @@ def _mk_leaves():
     add(struct("DCfrozen", kw, hashable=True))
     add(struct("DCcall", kw))
     add(struct("NT", kw, hashable=True))
+    add(struct("NTba", kw, hashable=True))  # str field first (2-character / 2-element first members)
+    add(struct("NTbaSub", kw, hashable=True))
     add(struct("PC", kw, hashable=True))
     add(struct("PCcv", kw, hashable=True))
+    add(struct("PCinh", kw, hashable=True))
+    add(struct("PCinit", kw, hashable=True))
     add(struct("SC", kw, hashable=True))
     td = struct("TD", lambda c, a, b: {"a": a, "b": b})
     tdnr = struct("TDnr", lambda c, a, b: {"a": a, "b": b})
